@@ -121,6 +121,16 @@ CHECKS["C08"] = dict(
    note="A batch is a loop of single routings (each its own transaction) and is logged as such in concurrent runs.",
    design="6/C08", technique=TECH)
 
+CHECKS["C14"] = dict(
+   text=("RunnerPool.tla model-checked for the three pool kinds (refill to N, on demand, one process per claimed invocation): "
+         "CapacityRestored, DeadForgotten, HeartbeatsOnlyForAlive, FreshIdentity. Death sequences (every subset of the pool, up "
+         "to three rounds, all workers at once, reports before / after loop iterations, seeded longer ones) are replayed on the "
+         "real MultiThreadRunner, PersistentProcessRunner and ProcessRunner through _on_start / runner_loop_iteration / "
+         "_report_child_runner_heartbeats with Process / Manager replaced by stand-ins; tracked, alive and reported ids after "
+         "every step are validated by TLC (incl. no heartbeat for the identity of a dead incarnation)."),
+   note="OS processes are stand-ins (is_alive controlled by the sequence); the workers' own code and real signals are not run.",
+   design="6/C14", technique=TECH)
+
 NOT_YET = {}
 
 def main() -> None:
